@@ -30,6 +30,7 @@ Theorem record_roundtrip thr desc_of txs r :
   record_of thr txs = Some r -> txs_of_record desc_of r = Some txs.
 Proof.
   unfold record_of. destruct (negb _); [discriminate|]. destruct (has_dup_field txs); [discriminate|].
+  destruct (negb _); [discriminate|].
   intros Hall H. inversion H; subst; clear H.
   induction txs as [|t txs IH]; [reflexivity|].
   cbn [map txs_of_record]. destruct (Hall t (or_introl eq_refl)) as [Hd Hk].
